@@ -71,6 +71,14 @@ func cmdRun(args []string) int {
 	e.nworkers = *workers
 	e.traceCalls = *trace
 	e.traceInstr = os.Getenv("GOSMT_TRACE_INSTR") != ""
+	if os.Getenv("GOSMT_SITES") != "" {
+		e.siteStats = map[string]int{}
+		defer func() {
+			for k, v := range e.siteStats {
+				fmt.Printf("SITE %6d %s\n", v, k)
+			}
+		}()
+	}
 	e.solverKind = *solver
 	e.maxPaths = *maxPaths
 	smtLogFile = *smtlog
